@@ -14,6 +14,7 @@ import (
 	"path/filepath"
 	"regexp"
 	"runtime"
+	"runtime/debug"
 	"sort"
 	"strconv"
 	"strings"
@@ -71,6 +72,13 @@ type Prop interface {
 	// concrete fault in its scenario. pin, when non-empty, restricts reported
 	// violations to that clause (used while shrinking).
 	Check(sc *Scenario, st *Stats, pin string) *Violation
+}
+
+// Sweeper is implemented by properties that also run a deterministic,
+// seed-free enumeration; batch indexes below SweepBatches run Sweep.
+type Sweeper interface {
+	SweepBatches(tier string) int
+	Sweep(tier string, batch int, verifSeed uint64, st *Stats) *Violation
 }
 
 var registry = map[string]Prop{}
@@ -175,6 +183,31 @@ func RunBatch(p Prop, tier string, verifSeed uint64, batch int, known *KnownFind
 	tb := &quietTB{}
 	harness := ""
 	wd := newWatchdog(watchdogLimit(tier))
+	if sw, ok := p.(Sweeper); ok && batch < sw.SweepBatches(tier) {
+		func() {
+			defer func() {
+				if r := recover(); r != nil {
+					harness = fmt.Sprintf("harness panic in sweep: %v\n%s", r, debug.Stack())
+				}
+			}()
+			if v := sw.Sweep(tier, batch, verifSeed, st); v != nil {
+				v.Property = p.ID()
+				if v.Scenario != nil {
+					v.Scenario.Prop, v.Scenario.Tier, v.Scenario.Procs = p.ID(), tier, runtime.GOMAXPROCS(0)
+				}
+				if id := known.Match(v); id != "" {
+					st.KnownHits[id]++
+					st.KnownSample[id] = v
+				} else {
+					res.Violation = v
+				}
+			}
+		}()
+		res.WallS = time.Since(start).Seconds()
+		st.finish()
+		res.Harness = harness
+		return res
+	}
 	func() {
 		defer func() {
 			if r := recover(); r != nil {
